@@ -607,7 +607,7 @@ func c09Doc(r *rand.Rand, corpus []wl.Example) []byte {
 	case 4:
 		d = []byte(sg.Document(r, 3, 4, 3, nil).Markdown)
 	default:
-		d = wl.Mix(r, corpus)
+		d = mixDoc(r, corpus)
 	}
 	d = c09Clean(d)
 	// documents are sequences of complete lines: an unterminated last line would make raw (HTML/code) output differ by the
